@@ -1,5 +1,5 @@
 from vdriver import Job
-from props import seqcases, C02 as _C02, C03 as _C03
+from props import seqcases, C02 as _C02, C03 as _C03, C16 as _C16
 
 LEVEL = "other"
 TECHNIQUE = "CBMC contracts on header_init/alloc/dealloc/del (DFCC + harness proofs through the real Type.c lookup), non-heap receivers of String/Tuple mutators as exceptional postconditions"
@@ -28,4 +28,5 @@ def jobs(tier):
                          replay="C19_dealloc.c"))
     J += seqcases.array_jobs(tier, "C19")
     J += _C02.table_jobs(tier, "C19") + _C03.tree_jobs(tier, "C19")
+    J += _C16.jobs(tier, only=["stack"], prefix="C19")
     return J
